@@ -3,15 +3,19 @@
 
   Property theorems only (helper lemmas live in VProofs.FedReq).  Model: VModel.FedReq
   (fclient/request.go; the JSONVerifier as `keyRingVerifier`, mirroring keyring.go with a key
-  database).  Cryptography enters through `IdealSig` hypotheses only.  The facts about canonical
-  JSON that C01 owns (its output re-parses to an equivalent value and is valid UTF-8) are explicit
-  hypotheses of `signed_request_accepted` (`hcanon`); they are vacuous for requests without a body.
+  database).  Cryptography enters through `IdealSig` / `CanonCorrect` hypotheses only.  The facts about
+  canonical JSON that `signed_request_accepted` needs (what Sign stores as the body is valid UTF-8 and
+  re-parses to the same value) are DERIVED from C01 (`canonical_body_facts`: `V.C01.canonical_eq_spec_general`,
+  `parse_encodeCanon`, `encodeCanon_sorted`, `canonical_utf8`), for bodies in C01's domain (`BodyOk`: valid
+  UTF-8, no lone surrogate escape, no duplicate key).
 
   Partial claims (props/C13.py): net/http, net/url and mime are parameters of the model (`HttpReq`,
   `urlRequestURI`); fields that are not valid UTF-8 are outside the model (json.Marshal rewrites them).
 -/
 import VModel.FedReq
 import VProofs.FedReq
+import VProofs.JsonUtf8
+import VProps.C01
 import VGen.C13
 namespace V.C13
 open V V.Json V.FedReq
@@ -153,14 +157,94 @@ theorem binding (S : SigScheme) (hS : IdealSig S)
   obtain ⟨h1, h2, h3, h4, h5⟩ := signingObject_sorted_inj _ _ _ _ _ _ _ _ _ _ hsorted
   exact ⟨h1, h2, h3, h4, by rw [← f1, h2], by rw [← f2, h4], cv, hcv, h5⟩
 
+/-! ### C01's contribution: what Sign leaves as the body re-reads to the same value -/
+
+mutual
+/-- no number of the parsed text is the literal `-0` (the one literal canonical JSON re-spells) -/
+def noNegZero : PVal → Bool
+  | .num raw => raw != [0x2D, 0x30]
+  | .arr xs => noNegZeroList xs
+  | .obj kvs => noNegZeroMembers kvs
+  | _ => true
+def noNegZeroList : List PVal → Bool
+  | [] => true
+  | x :: xs => noNegZero x && noNegZeroList xs
+def noNegZeroMembers : List (Bytes × Bytes × PVal) → Bool
+  | [] => true
+  | (_, _, v) :: kvs => noNegZero v && noNegZeroMembers kvs
+end
+
+mutual
+theorem normNums_of_noNegZero : (p : PVal) → noNegZero p = true → p.toJVal.normNums = p.toJVal
+  | .null, _ => rfl
+  | .bool _, _ => rfl
+  | .str _ _, _ => rfl
+  | .num raw, h => by
+    simp only [noNegZero, bne_iff_ne, ne_eq] at h
+    simp [PVal.toJVal, JVal.normNums, encodeNum, h]
+  | .arr xs, h => by
+    simp only [noNegZero] at h
+    simp only [PVal.toJVal, JVal.normNums, normNumsList_of_noNegZero xs h]
+  | .obj kvs, h => by
+    simp only [noNegZero] at h
+    simp only [PVal.toJVal, JVal.normNums, normNumsMembers_of_noNegZero kvs h]
+theorem normNumsList_of_noNegZero : (xs : List PVal) → noNegZeroList xs = true → normNumsList (toJVals xs) = toJVals xs
+  | [], _ => rfl
+  | x :: xs, h => by
+    simp only [noNegZeroList, Bool.and_eq_true] at h
+    simp only [toJVals, normNumsList, normNums_of_noNegZero x h.1, normNumsList_of_noNegZero xs h.2]
+theorem normNumsMembers_of_noNegZero : (kvs : List (Bytes × Bytes × PVal)) → noNegZeroMembers kvs = true →
+    normNumsMembers (toJMembers kvs) = toJMembers kvs
+  | [], _ => rfl
+  | (_, _, v) :: kvs, h => by
+    simp only [noNegZeroMembers, Bool.and_eq_true] at h
+    simp only [toJMembers, normNumsMembers, normNums_of_noNegZero v h.1, normNumsMembers_of_noNegZero kvs h.2]
+end
+
+/-- **What `hcanon` used to assume, derived from C01.**  For a body that is valid UTF-8 and denotes a JSON value
+    `p` without lone surrogate escapes and without duplicate keys, the canonical JSON `c` that Sign stores
+    (`V.C01.canonical_eq_spec_general`: it is `encodeCanon p`) is valid UTF-8 (`V.Json.canonical_utf8`), parses
+    (`V.Json.parse_encodeCanon`, the content of `V.C01.canonical_output_valid`) to the value `p` with members sorted
+    and `-0` written `0`, and has the same canonical bytes as `p` (`V.C01`'s idempotence: `encodeCanon_sorted`,
+    `encodeCanon_normNums`); if no number is the literal `-0`, the two values are equal up to member order. -/
+theorem canonical_body_facts {raw c : Bytes} {p : PVal} (hp : parse raw = some p) (hu : utf8Valid raw = true)
+    (hs : p.surrogatesOk = true) (hd : p.noDupKeys = true) (hc : canonical raw = .ok c) :
+    c = encodeCanon p.toJVal ∧ utf8Valid c = true ∧
+    ∃ p', parse c = some p' ∧ p'.toJVal = p.toJVal.sorted.normNums ∧
+      encodeCanon p'.toJVal = encodeCanon p.toJVal ∧
+      (noNegZero p = true → p'.toJVal.sorted = p.toJVal.sorted) := by
+  have hspec := V.C01.canonical_eq_spec_general raw p hp hs
+  rw [hspec] at hc
+  have hce : c = encodeCanon p.toJVal := by injection hc with h; exact h.symm
+  subst hce
+  obtain ⟨hp', hv'⟩ := parse_encodeCanon p.toJVal (parse_numsOk hp)
+  have hdj : p.toJVal.noDupKeys = true := (noDupKeys_toJVal p).trans hd
+  refine ⟨rfl, canonical_utf8 hp hu, _, hp', hv', ?_, ?_⟩
+  · rw [hv', encodeCanon_normNums, encodeCanon_sorted _ hdj]
+  · intro hnz
+    rw [hv', sorted_normNums, sorted_idem _ hdj, ← sorted_normNums, normNums_of_noNegZero p hnz]
+
+/-- the hypotheses of `canonical_body_facts` hold of an ordinary body: `{"b":-0, "a":[1,"é\n"]}` is valid UTF-8, has no
+    lone surrogate escape and no duplicate key; its canonical form is `{"a":[1,"é\n"],"b":0}`.  (It does contain
+    `-0`: the two values then differ in that literal only.) -/
+example : (utf8Valid (bz!"{\"b\":-0, \"a\":[1,\"é\\n\"]}") &&
+    (parse (bz!"{\"b\":-0, \"a\":[1,\"é\\n\"]}")).any (fun p => p.surrogatesOk && p.noDupKeys && !noNegZero p) &&
+    (canonical (bz!"{\"b\":-0, \"a\":[1,\"é\\n\"]}")).toOption == some (bz!"{\"a\":[1,\"é\\n\"],\"b\":0}")) = true := by
+  decide
+
+/-- …and why the residue "no lone surrogate escape" cannot be dropped: Sign stores `""` for the body `"\ud800"`
+    (CompactJSON drops the escape), which does not denote the value the body denotes (U+FFFD, as gjson reads it:
+    the canonical bytes of the two values differ). -/
+example : (canonical (bz!"\"\\ud800\"")).toOption = some (bz!"\"\"") ∧
+    canonicalSpec (bz!"\"\\ud800\"") = some [0x22, 0xEF, 0xBF, 0xBD, 0x22] ∧ canonicalSpec (bz!"\"\"") = some (bz!"\"\"") := by
+  decide
+
 /-! ### Completeness: a signed request sent through HTTPRequest is accepted -/
 
-/-- A request (NewFederationRequest + optional SetContent = `f0`, not yet signed) signed by its origin with a
-    key the receiver holds as valid at the time of receipt, rendered by HTTPRequest and delivered unchanged, is
-    accepted at the named destination, and VerifyHTTPRequest reports the signed fields (`f`: method, URI,
-    origin, destination as given; the content in canonical form).
-    `hcanon` is C01's contribution (canonical JSON is valid UTF-8 and re-parses to an equivalent value). -/
-theorem signed_request_accepted (S : SigScheme) (hS : IdealSig S)
+/-- The common part of the two completeness theorems: everything except the signature check itself, which enters as
+    `hchk` (body present: the object the receiver rebuilds from the canonical body checks against the signature made
+    over the object built from the original body) and `hchk0` (no body). -/
+private theorem accepted_core (S : SigScheme)
     (f0 f : Fields) (serverName keyID : Str) (pk : Nat) (up : Option Str) (req : HttpReq)
     (now : Millis) (destination : Str) (isLocal : Option (Str → Bool)) (table : List KeyEntry) (wc : Nat)
     (hsign : sign f0 serverName keyID (S.sign pk) = .ok f)
@@ -178,7 +262,11 @@ theorem signed_request_accepted (S : SigScheme) (hS : IdealSig S)
     (hsigtext : ∀ obj, 0x2C ∉ S.sign pk obj ∧ 0x22 ∉ S.sign pk obj ∧ S.sign pk obj ≠ [] ∧ utf8Valid (S.sign pk obj) = true)
     (hcontent : f0.content ≠ some [])
     (hcanon : ∀ raw c, f0.content = some raw → canonical raw = .ok c →
-      utf8Valid c = true ∧ ∃ p p', parse raw = some p ∧ parse c = some p' ∧ p'.toJVal.sorted = p.toJVal.sorted) :
+      utf8Valid c = true ∧ ∃ p p', parse raw = some p ∧ parse c = some p' ∧
+        S.check pk (signingObject (some p'.toJVal) f0.destination f0.method serverName f0.uri)
+          (S.sign pk (signingObject (some p.toJVal) f0.destination f0.method serverName f0.uri)) = true)
+    (hchk0 : S.check pk (signingObject none f0.destination f0.method serverName f0.uri)
+          (S.sign pk (signingObject none f0.destination f0.method serverName f0.uri)) = true) :
     verifyHTTPRequest req now destination isLocal (keyRingVerifier table false wc S.check) = .ok f ∧
       f.method = f0.method ∧ f.uri = f0.uri ∧ f.origin = serverName ∧ f.destination = f0.destination := by
   obtain ⟨so, sd, sm, su, hmar, hkidv, cv0, hcv0, hsigs, hcnone, hcsome⟩ := sign_shape f0 f serverName keyID _ hsign
@@ -191,7 +279,9 @@ theorem signed_request_accepted (S : SigScheme) (hS : IdealSig S)
   -- the content the receiver reads
   have hcontentF : (f.content = none ∧ cv0 = none) ∨
       (∃ raw c p p', f0.content = some raw ∧ f.content = some c ∧ c ≠ [] ∧ utf8Valid c = true ∧
-        parse raw = some p ∧ parse c = some p' ∧ p'.toJVal.sorted = p.toJVal.sorted ∧ cv0 = some p.toJVal) := by
+        parse raw = some p ∧ parse c = some p' ∧ cv0 = some p.toJVal ∧
+        S.check pk (signingObject (some p'.toJVal) f0.destination f0.method serverName f0.uri)
+          (S.sign pk (signingObject (some p.toJVal) f0.destination f0.method serverName f0.uri)) = true) := by
     cases hc0 : f0.content with
     | none =>
       left
@@ -203,7 +293,7 @@ theorem signed_request_accepted (S : SigScheme) (hS : IdealSig S)
       obtain ⟨c, hcan, hfc⟩ := hcsome raw hc0 hrne
       obtain ⟨hu, p, p', hp, hp', hs⟩ := hcanon raw c hc0 hcan
       have hcne : c ≠ [] := by intro e; rw [e, parse_nil] at hp'; cases hp'
-      refine ⟨raw, c, p, p', rfl, hfc, hcne, hu, hp, hp', hs, ?_⟩
+      refine ⟨raw, c, p, p', rfl, hfc, hcne, hu, hp, hp', ?_, hs⟩
       rw [hc0] at hcv0
       have : raw.isEmpty = false := by simpa using hrne
       simp [contentValue, this, hp] at hcv0
@@ -233,14 +323,14 @@ theorem signed_request_accepted (S : SigScheme) (hS : IdealSig S)
     exact ⟨hkidv, hsu⟩
   obtain ⟨k, hk, hks, hkid2, hkpk, hkv⟩ := hkey
   refine ⟨?_, sm, su, so, sd⟩
-  rcases hcontentF with ⟨hn, hcv0n⟩ | ⟨raw, c, p, p', _, hfc, _, _, _, hp', hsort, hcv0s⟩
+  rcases hcontentF with ⟨hn, hcv0n⟩ | ⟨raw, c, p, p', _, hfc, _, _, _, hp', hcv0s, hchk⟩
   · apply verify_of_read req now destination isLocal _ f none hread (by rw [sd]; exact hdest)
       (by rw [sd]; exact hown) hmarF (by rw [hn]; rfl) (by rw [so]; exact hname) (by rw [so]; exact hvalid)
     rw [keyRing_accepted_iff]
     refine ⟨rfl, (keyID, S.sign pk (signingObject cv0 f0.destination f0.method serverName f0.uri)),
       by rw [hsigs]; simp, hkid, k, hk, by rw [so]; exact hks, hkid2, hkv, ?_⟩
     rw [hkpk, sd, sm, so, su, hcv0n]
-    exact hS.correct _ _ _ rfl
+    exact hchk0
   · have hce : c.isEmpty = false := by
       cases c with
       | nil => rw [parse_nil] at hp'; cases hp'
@@ -252,7 +342,108 @@ theorem signed_request_accepted (S : SigScheme) (hS : IdealSig S)
     refine ⟨rfl, (keyID, S.sign pk (signingObject cv0 f0.destination f0.method serverName f0.uri)),
       by rw [hsigs]; simp, hkid, k, hk, by rw [so]; exact hks, hkid2, hkv, ?_⟩
     rw [hkpk, sd, sm, so, su, hcv0s]
-    exact hS.correct _ _ _ (signingObject_sorted_congr _ _ _ _ _ _ (by simp [hsort]))
+    exact hchk
+
+/-- A body in the domain of C01's specification: valid UTF-8 (anything else is refused — `refused_if` (6)), and the
+    value it denotes has no lone surrogate escape and no duplicate key (outside the model: `CompactJSON` drops a lone
+    surrogate escape, gjson's sort order of equal keys is unspecified). -/
+def BodyOk (raw : Bytes) : Prop :=
+  utf8Valid raw = true ∧ ∀ p, parse raw = some p → p.surrogatesOk = true ∧ p.noDupKeys = true
+
+/-- A request (NewFederationRequest + optional SetContent = `f0`, not yet signed) signed by its origin with a
+    key the receiver holds as valid at the time of receipt, rendered by HTTPRequest and delivered unchanged, is
+    accepted at the named destination, and VerifyHTTPRequest reports the signed fields (`f`: method, URI,
+    origin, destination as given; the content in canonical form).
+
+    C01's facts about canonical JSON are no longer assumed: they are `canonical_body_facts`, for every body that is
+    valid UTF-8, without lone surrogate escapes and without duplicate keys (`BodyOk`).  One further restriction is
+    forced by `IdealSig.correct`, which promises a valid check only for objects equal *up to member order*: no number of
+    the body is the literal `-0` (canonical JSON writes it `0`, so the receiver's object differs from the signed one in
+    that literal).  `signed_request_accepted_canon` removes it under the byte-level reading of correctness. -/
+theorem signed_request_accepted (S : SigScheme) (hS : IdealSig S)
+    (f0 f : Fields) (serverName keyID : Str) (pk : Nat) (up : Option Str) (req : HttpReq)
+    (now : Millis) (destination : Str) (isLocal : Option (Str → Bool)) (table : List KeyEntry) (wc : Nat)
+    (hsign : sign f0 serverName keyID (S.sign pk) = .ok f)
+    (hreq : httpRequest f up = .ok req)
+    (hnosig : f0.signatures = [])
+    (hmethod : f0.method ≠ [])
+    (hdest : f0.destination ≠ [])
+    (hown : match isLocal with
+      | some loc => loc f0.destination = true
+      | none => destination = f0.destination)
+    (hname : serverName ≠ []) (hvalid : validServerName serverName = true)
+    (hkid : ed25519Prefix.isPrefixOf keyID = true)
+    (hkey : ∃ k ∈ table, k.server = serverName ∧ k.keyID = keyID ∧ k.pk = pk ∧ wasValidAt wc k now = true)
+    (hcomma : 0x2C ∉ serverName ∧ 0x2C ∉ keyID ∧ 0x2C ∉ f0.destination)
+    (hsigtext : ∀ obj, 0x2C ∉ S.sign pk obj ∧ 0x22 ∉ S.sign pk obj ∧ S.sign pk obj ≠ [] ∧ utf8Valid (S.sign pk obj) = true)
+    (hcontent : f0.content ≠ some [])
+    (hbody : ∀ raw, f0.content = some raw → BodyOk raw ∧ ∀ p, parse raw = some p → noNegZero p = true) :
+    verifyHTTPRequest req now destination isLocal (keyRingVerifier table false wc S.check) = .ok f ∧
+      f.method = f0.method ∧ f.uri = f0.uri ∧ f.origin = serverName ∧ f.destination = f0.destination := by
+  apply accepted_core S f0 f serverName keyID pk up req now destination isLocal table wc hsign hreq hnosig hmethod hdest
+    hown hname hvalid hkid hkey hcomma hsigtext hcontent
+  · intro raw c hc0 hcan
+    obtain ⟨⟨hu, hwf⟩, hnz⟩ := hbody raw hc0
+    have hv : valid raw = true := by
+      cases hvv : valid raw with
+      | true => rfl
+      | false => simp [canonical, hvv] at hcan
+    obtain ⟨p, hp⟩ := Option.isSome_iff_exists.mp (show (parse raw).isSome = true from hv)
+    obtain ⟨hs, hd⟩ := hwf p hp
+    obtain ⟨_, hcu, p', hp', _, _, hsort⟩ := canonical_body_facts hp hu hs hd hcan
+    exact ⟨hcu, p, p', hp, hp', hS.correct _ _ _ (signingObject_sorted_congr _ _ _ _ _ _ (by simp [hsort (hnz p hp)]))⟩
+  · exact hS.correct _ _ _ rfl
+
+/-- Correctness of a scheme that signs the canonical JSON bytes (what ed25519 over `CanonicalJSON` does): a signature
+    checks against every object with the same canonical bytes as the signed one.  Implies `IdealSig.correct`. -/
+def CanonCorrect (S : SigScheme) : Prop :=
+  ∀ pk obj obj', encodeCanon obj' = encodeCanon obj → S.check pk obj' (S.sign pk obj) = true
+
+theorem CanonCorrect.toSorted {S : SigScheme} (h : CanonCorrect S) :
+    ∀ pk obj obj', obj'.sorted = obj.sorted → S.check pk obj' (S.sign pk obj) = true :=
+  fun pk obj obj' hs => h pk obj obj' (by unfold encodeCanon; rw [hs])
+
+theorem encodeCanon_signingObject_congr (a b : JVal) (d m o u : Bytes) (h : encodeCanon a = encodeCanon b) :
+    encodeCanon (signingObject (some a) d m o u) = encodeCanon (signingObject (some b) d m o u) := by
+  unfold encodeCanon at h ⊢
+  rw [sorted_signingObject_some, sorted_signingObject_some]
+  simp only [encode, encodeMembers, h]
+
+/-- The same at full strength for bodies containing `-0`: with correctness read at the level of the signed bytes
+    (`CanonCorrect`), every signed request whose body is in C01's domain (`BodyOk`) is accepted. -/
+theorem signed_request_accepted_canon (S : SigScheme) (hS : CanonCorrect S)
+    (f0 f : Fields) (serverName keyID : Str) (pk : Nat) (up : Option Str) (req : HttpReq)
+    (now : Millis) (destination : Str) (isLocal : Option (Str → Bool)) (table : List KeyEntry) (wc : Nat)
+    (hsign : sign f0 serverName keyID (S.sign pk) = .ok f)
+    (hreq : httpRequest f up = .ok req)
+    (hnosig : f0.signatures = [])
+    (hmethod : f0.method ≠ [])
+    (hdest : f0.destination ≠ [])
+    (hown : match isLocal with
+      | some loc => loc f0.destination = true
+      | none => destination = f0.destination)
+    (hname : serverName ≠ []) (hvalid : validServerName serverName = true)
+    (hkid : ed25519Prefix.isPrefixOf keyID = true)
+    (hkey : ∃ k ∈ table, k.server = serverName ∧ k.keyID = keyID ∧ k.pk = pk ∧ wasValidAt wc k now = true)
+    (hcomma : 0x2C ∉ serverName ∧ 0x2C ∉ keyID ∧ 0x2C ∉ f0.destination)
+    (hsigtext : ∀ obj, 0x2C ∉ S.sign pk obj ∧ 0x22 ∉ S.sign pk obj ∧ S.sign pk obj ≠ [] ∧ utf8Valid (S.sign pk obj) = true)
+    (hcontent : f0.content ≠ some [])
+    (hbody : ∀ raw, f0.content = some raw → BodyOk raw) :
+    verifyHTTPRequest req now destination isLocal (keyRingVerifier table false wc S.check) = .ok f ∧
+      f.method = f0.method ∧ f.uri = f0.uri ∧ f.origin = serverName ∧ f.destination = f0.destination := by
+  apply accepted_core S f0 f serverName keyID pk up req now destination isLocal table wc hsign hreq hnosig hmethod hdest
+    hown hname hvalid hkid hkey hcomma hsigtext hcontent
+  · intro raw c hc0 hcan
+    obtain ⟨hu, hwf⟩ := hbody raw hc0
+    have hv : valid raw = true := by
+      cases hvv : valid raw with
+      | true => rfl
+      | false => simp [canonical, hvv] at hcan
+    obtain ⟨p, hp⟩ := Option.isSome_iff_exists.mp (show (parse raw).isSome = true from hv)
+    obtain ⟨hs, hd⟩ := hwf p hp
+    obtain ⟨_, hcu, p', hp', _, henc, _⟩ := canonical_body_facts hp hu hs hd hcan
+    exact ⟨hcu, p, p', hp, hp', hS _ _ _ (encodeCanon_signingObject_congr _ _ _ _ _ _ henc)⟩
+  · exact hS _ _ _ rfl
 
 /-! ### Non-vacuity: the hypotheses are jointly satisfiable -/
 
@@ -285,5 +476,45 @@ example :
        | .error _ => false)
     | .error _ => false) = true := by
   decide
+
+/-- the toy scheme is also correct at the level of canonical bytes (hypothesis of `signed_request_accepted_canon`) -/
+example : CanonCorrect toyScheme := by
+  intro pk obj obj' h
+  simp [toyScheme, h]
+
+/-- `hbody` of `signed_request_accepted` is satisfiable by an ordinary body: `{"b":1, "a":[1,"é\n"]}` -/
+example : BodyOk (bz!"{\"b\":1, \"a\":[1,\"é\\n\"]}") ∧
+    ∀ p, parse (bz!"{\"b\":1, \"a\":[1,\"é\\n\"]}") = some p → noNegZero p = true := by
+  have h : (parse (bz!"{\"b\":1, \"a\":[1,\"é\\n\"]}")).all (fun p => p.surrogatesOk && p.noDupKeys && noNegZero p) = true := by
+    decide
+  refine ⟨⟨by decide, fun p hp => ?_⟩, fun p hp => ?_⟩ <;>
+  · rw [hp] at h
+    simp only [Option.all_some, Bool.and_eq_true] at h
+    first | exact ⟨h.1.1, h.1.2⟩ | exact h.2
+
+/-- `hbody` of `signed_request_accepted_canon`: a body containing `-0` is in its domain -/
+example : BodyOk (bz!"{\"b\":-0, \"a\":[1,\"é\\n\"]}") := by
+  have h : (parse (bz!"{\"b\":-0, \"a\":[1,\"é\\n\"]}")).all (fun p => p.surrogatesOk && p.noDupKeys) = true := by decide
+  refine ⟨by decide, fun p hp => ?_⟩
+  rw [hp] at h
+  simpa using h
+
+/-- a concrete accepted request with a body (a PUT whose body contains `-0` and a non-ASCII string, sent with its
+    members out of order), evaluated by the kernel: the receiver reports the canonical body -/
+example :
+    (match setContent (newRequest (bz!"put") [] (bz!"b.example") (bz!"/_matrix/federation/v1/send/1")) (bz!"{\"b\":-0, \"a\":[1,\"é\\n\"]}") with
+    | .ok f0 =>
+      (match sign f0 (bz!"a.example") (bz!"ed25519:1") (toyScheme.sign 3) with
+       | .ok f =>
+         (match httpRequest f (some f.uri) with
+          | .ok req =>
+            (match verifyHTTPRequest req 1000 (bz!"b.example") none
+               (keyRingVerifier [⟨bz!"a.example", bz!"ed25519:1", 3, 5000, 0⟩] false 2000 toyScheme.check) with
+             | .ok r => r.method == bz!"PUT" && r.origin == bz!"a.example" && r.content == some (bz!"{\"a\":[1,\"é\\n\"],\"b\":0}")
+             | .error _ => false)
+          | .error _ => false)
+       | .error _ => false)
+    | .error _ => false) = true := by
+  decide +kernel
 
 end V.C13
